@@ -31,4 +31,4 @@ meta = {
     "history": history,
 }
 json.dump(meta, open(os.path.join(dst, "meta.json"), "w"), indent=1)
-print("stored", dst, marks)
+print("stored", dst, len(marks), "marks")
